@@ -14,8 +14,8 @@ def replay(paths):
         with open(path) as f:
             for line in f:
                 p = line.split()
-                if not p:
-                    continue
+                if not p or not line.endswith("\n"):
+                    continue  # (a worker that died leaves its last record torn; the death is reported separately)
                 if p[0] == "H":
                     cur = (int(p[1]), p[2])
                     x = 0
@@ -55,6 +55,8 @@ def replay(paths):
                         fl = x.bit_length() - 1
                         if pending != [ff, fl]:
                             bad.append((cur, name, "scans %s expected %s" % (pending, [ff, fl])))
+                    elif name == "assign-other":
+                        x = arg << int(p[3])
                     elif name == "clear":
                         x = 0
                     elif name == "grow":
